@@ -8,7 +8,7 @@ from .. import trees
 from ..trees import build, to_sx, safe_call, res_decode
 
 import htmltools
-from htmltools import Tag, TagList
+from htmltools import HTML, Tag, TagList
 
 WS = " \t\n\f\r"
 EOLS = ["\n", "\r\n", "", " ", "\t\n", "\n\n", "\f"]
@@ -217,7 +217,7 @@ def run(ctx: Ctx) -> None:
     outs = {}
 
     def impl(c):
-        r = safe_call(lambda: build(c[0]).get_html_string(c[1], c[2]))
+        r = safe_call(lambda: build(c[0], share=True).get_html_string(c[1], c[2]))
         outs[id(c)] = r
         return r
 
@@ -239,6 +239,15 @@ def run(ctx: Ctx) -> None:
             return "html.parser rebuilds a different element tree from the output"
         if p[2] != expected_events(c[0], []):
             return "tag events differ: self-closed form must be used exactly for childless void elements"
+        # every other way of obtaining the markup parses back to the same tree
+        x = build(c[0], share=True)
+        for name, f in trees.render_routes(x):
+            r = safe_call(f)
+            if r[0] != "ok":
+                return f"{name} raised {r} on an ordinary tree"
+            q = py_parse(r[1])
+            if q[0] != "ok" or q[1] != want[id(c)]:
+                return f"the output of {name} does not parse back to the tree"
         return None
 
     differential(ctx, "Tag.get_html_string (ordinary trees)", cases,
@@ -267,6 +276,7 @@ def run(ctx: Ctx) -> None:
             ctx.extra.setdefault("tokenizer_vs_htmlparser", []).append(outs[id(c)][1][:200])
     ctx.obligation("spec tokenizer+builder agrees with html.parser on every rendered string", agree)
     histories(ctx, catalogue)
+    public_api(ctx, catalogue)
 
 
 
@@ -276,7 +286,11 @@ def live_expected(t):
         kids = []
         for c in t.children:
             kids.extend(live_expected(c))
-        return [["E", lower_ascii(t.name), [[lower_ascii(k), str(v)] for k, v in t.attrs.items()], kids]]
+        import html as _html
+        # a trusted-markup (HTML) value is emitted verbatim: the parser decodes its character references
+        return [["E", lower_ascii(t.name),
+                 [[lower_ascii(k), _html.unescape(str(v)) if isinstance(v, HTML) else str(v)] for k, v in t.attrs.items()],
+                 kids]]
     if isinstance(t, str):
         return [["T", t]]
     return []
@@ -357,6 +371,66 @@ def histories(ctx: Ctx, catalogue) -> None:
             if p2[0] != "ok" or p2[1] != want:
                 ctx.violation("str(tag) after a mutation does not parse back to the tree as it is now", [d, first, log],
                               {"impl_output": s2[1], "expected_forest": want})
+
+
+RAW_KEYS = ["data_x", "a__b", "class_", "for_", "http_equiv", "x__", "_y", "data_row__id", "aria_label", "xml:lang",
+            "CamelCase", "x-y", "a_b_c", "id", "title", "b__", "__c", "d___e"]
+
+
+def public_api(ctx: Ctx, catalogue) -> None:
+    """Trees built the way users build them -- tag functions and Tag() with keyword attributes and
+    positional attribute dicts whose names still carry underscores, numbers / True as values,
+    numbers as children -- then rendered every way there is: each output must parse back to the
+    tree AS STORED (names and values as the attribute dict holds them after construction)."""
+    from htmltools import tags as T
+    rng = ctx.rng
+
+    def mk(depth):
+        name = rng.choice(["div", "span", "p", "a", "li", "td", "img", "input", "br", "section"] + catalogue[:0])
+        if rng.random() < 0.3:
+            name = rng.choice(catalogue)
+        if name in ("script", "style"):
+            name = "div"
+        kw, pos = {}, []
+        for k in rng.sample(RAW_KEYS, rng.choice([0, 1, 2, 3])):
+            v = rng.choice([trees.rand_text(rng, 6), 0, 1.5, True, "v", None, False, HTML("&amp;<i>")])
+            if rng.random() < 0.6:
+                kw[k] = v
+            else:
+                pos.append({k: v})
+        kids = []
+        if depth > 0:
+            for _ in range(rng.choice([0, 1, 2, 3])):
+                q = rng.random()
+                if q < 0.5:
+                    kids.append(mk(depth - 1))
+                else:
+                    kids.append(rng.choice([trees.rand_text(rng, 6), 0, 0.0, 7, 2.5]))
+        f = getattr(T, name, None)
+        args = pos[:1] + kids + pos[1:]
+        desc = [name, [(k, repr(v)) for d_ in pos for k, v in d_.items()], sorted((k, repr(v)) for k, v in kw.items()),
+                [a[0] if isinstance(a, tuple) else repr(a) for a in kids]]
+        args = [a[1] if isinstance(a, tuple) else a for a in args]
+        if f is not None and rng.random() < 0.7:
+            return (desc, f(*args, **kw))
+        return (desc, Tag(name, *args, **kw))
+
+    for _ in range(ctx.budget(800, 10000)):
+        r = safe_call(lambda: mk(rng.choice([0, 1, 2])))
+        if r[0] != "ok":
+            ctx.violation("constructing an ordinary tag through the public API raised", repr(r), {})
+            continue
+        desc, t = r[1]
+        ctx.count(("public", repr(desc)), True, "tag built with keyword / dict attributes")
+        want = canon(live_expected(t))
+        for name, f in trees.render_routes(t):
+            out = safe_call(f)
+            p = py_parse(out[1]) if out[0] == "ok" else ("err", out)
+            if p[0] != "ok" or p[1] != want:
+                ctx.violation("a tag built through the public API (keyword / dict attributes with underscores, number "
+                              "values and children) does not parse back to the tree it stores", desc,
+                              {"route": name, "impl_output": out, "expected_forest": want})
+                break
 
 
 def replay(ctx: Ctx, path: str) -> None:
